@@ -7,6 +7,7 @@ import (
 	"strconv"
 	"strings"
 	"sync"
+	"sync/atomic"
 
 	"golang.org/x/tools/go/ssa"
 
@@ -21,6 +22,7 @@ type Engine struct {
 
 	mu     sync.Mutex
 	fnInfo map[*ssa.Function]*fnInfo
+	violSeen sync.Map // label -> *int32: violations already recorded (saturation)
 	qcache sync.Map // canonical query text -> smt.Result (shared by all workers)
 
 	// type handles
@@ -272,7 +274,21 @@ func (p *Path) note(s string) {
 	p.notes = append(p.notes, s)
 }
 
+// saturated reports whether enough counterexamples were recorded for label.
+func (p *Path) saturated(label string) bool {
+	v, _ := p.E.violSeen.LoadOrStore(label, new(int32))
+	return atomic.LoadInt32(v.(*int32)) >= 3
+}
+
+func (p *Path) countViolation(label string) {
+	v, _ := p.E.violSeen.LoadOrStore(label, new(int32))
+	atomic.AddInt32(v.(*int32), 1)
+}
+
 func (p *Path) violation(label, detail string) {
+	if p.saturated(label) {
+		panic(abort{"violation", label})
+	}
 	// obtain a model for the current path condition
 	v := &Violation{Label: label, Detail: detail, Log: append([]int32(nil), p.log...)}
 	vec, ok := p.materialise(nil)
@@ -282,6 +298,7 @@ func (p *Path) violation(label, detail string) {
 	}
 	v.Vector = vec
 	p.violations = append(p.violations, v)
+	p.countViolation(label)
 	panic(abort{"violation", label})
 }
 
